@@ -272,7 +272,8 @@ var noEffectPrefixes = []string{
 	"strconv.", "unicode", "slices.", "sort.", "cmp.", "encoding/binary.", "(encoding/binary.", "math/rand.", "(*golang.org/x/text/encoding.Encoder).String",
 	"(*golang.org/x/text/encoding.Decoder).String", "golang.org/x/crypto/bcrypt.", "time.Sleep", "(*sync.Mutex).", "(*sync.RWMutex).",
 	"hotline.HashAndSalt", "(*sync/atomic.", "(error).Error", "io.ReadAll", "(*math/big.Int).SetBit", "(io/fs.DirEntry).", "encoding/hex.",
-	"regexp.", "(*regexp.Regexp).", "mime.", "unicode/utf8.", "(time.Duration).", "fmt.Fprint", "os.Getenv", "net.SplitHostPort",
+	"regexp.", "(*regexp.Regexp).", "gopkg.in/yaml.v3.Marshal", "os.WriteFile", "os.Rename", "os.Remove", "os.RemoveAll", "os.Mkdir", "os.MkdirAll",
+	"os.Stat", "os.Lstat", "os.Open", "os.OpenFile", "os.ReadFile", "os.ReadDir", "os.Symlink", "os.Readlink", "(*os.File).", "os.Create", "path/filepath.", "mime.", "unicode/utf8.", "(time.Duration).", "fmt.Fprint", "os.Getenv", "net.SplitHostPort",
 }
 
 func isNoEffect(name string) bool {
@@ -344,6 +345,10 @@ var effectTable = []effectRow{
 	{"(hotline.ChatManager).Leave", "chat.leave"},
 	{"(hotline.ChatManager).SetSubject", "chat.subject"},
 	{"(hotline.ClientManager).Add", "registry.add"},
+	{"(*hotline.Server).NewClientConn", "registry.add"},
+	{"(hotline.Counter).Increment", "stats"},
+	{"(hotline.Counter).Decrement", "stats"},
+	{"(hotline.Counter).Set", "stats"},
 	{"(hotline.ClientManager).Delete", "registry.delete"},
 	{"(*hotline.ClientConn).NewFileTransfer", "transfer.create"},
 	{"(hotline.FileTransferMgr).Add", "transfer.create"},
